@@ -13,6 +13,7 @@ NOTES = {
     "C20": "maybenot_on_events on an instance: BOUNDED (no machines, two batches of 0 or 1 event, all-zero generator value, Instant::now stubbed); count <= num_machines with machines and start/stop ownership rely on std semantics (zip, Box) - assumed.",
 }
 NOTES.update({
+    "C15": "PARTIAL: the per-event rules of sim_network_stack by Verus with stand-ins for std::time, the queue and the network model (no overflow of Instant arithmetic assumed; pop_blocking assumed to remove the event peek_blocking shows); whole-run conservation / causality and the final sort are not decided.",
     "C16": "PARTIAL and BOUNDED: per-action rules of do_scheduled_action / peek_blocked_exp on two timer slots per side; the trace-level clauses (one BlockingEnd, nothing leaves a blocked side) need the event loop and are not decided.",
     "C17": "PARTIAL: trigger_update by Verus for any number of machines (std::time / queue / framework stand-ins, no overflow of Instant arithmetic assumed); firing and look-ahead by Kani BOUNDED to two slots per side; that pick_next advances to the earliest pending time is not decided.",
     "C18": "PARTIAL: as C17, for the internal timer: the UpdateTimer rule, cancellation and TimerBegin by Verus; TimerEnd and look-ahead by Kani, BOUNDED; pick_next not decided.",
